@@ -236,3 +236,8 @@ def run(ck):
     # a tie that the stable sort breaks by station order (sort-order table of C08; reports under its C08 ids)
     from .c08 import rule_sorts
     ck.attempt(rule_sorts)
+    # constraints are sums of Currents: the sum is taken station by station, whatever order the operands list their stations in (algebra
+    # rules of C12; they report under their C12 ids)
+    from .c12 import rule_algebra
+    ck.attempt(rule_algebra)
+
